@@ -145,6 +145,20 @@ Theorem C17_finalized_forever :
 Proof. exact finalized_refuses_forever. Qed.
 Print Assumptions C17_finalized_forever.
 
+(* a flow rate that is neither a number nor a graph object (a string, None, a list, ...) is refused by every
+   flow-adding call that takes a rate, on every model and whatever the other arguments; a number or a graph
+   object is handed on unchanged to the typed call *)
+Theorem C17_rate_type :
+  (forall m v fs, is_rate v = false -> fs_kind fs <> KRepl -> rejected (apply_op m (OpFlowDyn v fs)))
+  /\ (forall m name v, is_rate v = false -> rejected (apply_op m (OpUDeathDyn name v)))
+  /\ (forall m e fs, apply_op m (OpFlowDyn (PyGraph e) (with_param fs e)) = apply_op m (OpFlow (with_param fs e)))
+  /\ (forall m q fs, apply_op m (OpFlowDyn (PyNum q) (with_param fs (EConst q))) = apply_op m (OpFlow (with_param fs (EConst q)))).
+Proof.
+  split; [exact reject_bad_rate|]. split; [exact reject_bad_rate_udeath|].
+  split; [exact good_rate_is_typed_call | exact number_rate_is_constant].
+Qed.
+Print Assumptions C17_rate_type.
+
 (* non-vacuity: valid programs are accepted (the example builds), and a second birth flow on it is refused *)
 Example C17_nonvacuous :
   ex_model = Some ex_m /\ has_birth_flow ex_m = true
@@ -152,4 +166,12 @@ Example C17_nonvacuous :
 Proof.
   split; [exact ex_model_ok|]. split; [vm_compute; reflexivity|].
   apply reject_second_birth_flow; [reflexivity | vm_compute; reflexivity].
+Qed.
+
+Example C17_rate_nonvacuous :
+  rejected (apply_op ex_m (OpFlowDyn (PyStr "0.3") (FlowSpec KTrans "rec2" (EConst 0) "I" "R" [] [] None false)))
+  /\ (exists m', apply_op ex_m (OpFlowDyn (PyNum (3#10)) (FlowSpec KTrans "rec2" (EConst 0) "I" "R" [] [] None false)) = Ok m').
+Proof.
+  split; [apply reject_bad_rate; [reflexivity | discriminate]|].
+  vm_compute. eexists; reflexivity.
 Qed.
